@@ -1,6 +1,8 @@
 import RockitModel.Proofs.Bridge
 import RockitModel.Model.Transcribe
 import Mathlib.Tactic.NormNum
+import RockitModel.Proofs.Glue
+import RockitModel.Generated.Glue
 /-!
 # C09 — a parametric OCP is the family of OCPs with the values written in
 -/
@@ -96,5 +98,27 @@ theorem store_frame (ops : List (Nat × K)) (init : Nat → Option K) (p q : Nat
 example : ((Expr.mul (.sym (.p 0)) (.sym (.x 0))).subst (constP #[(3, 2)])).eval
     ({ x := #[(4:ℚ)], t := 0, T := 1, t0 := 0, DT := 0, DTc := 0 } : Env ℚ) = 6 := by
   simp [Expr.subst, constP, Expr.eval, Env.get, intCast]; norm_num
+
+
+/-! ### matrix-valued parameters keep their element layout; one call on a concatenation gives every symbol its own values -/
+section concatenations
+
+/-- `set_value(vertcat/horzcat/veccat(p_1, …, p_n), values)`: walking the symbols with a running offset that advances by each symbol's
+number of entries hands every symbol exactly its own entries of the flattened value — whatever the shapes (a matrix in the middle
+included) -/
+theorem concatenation_gives_each_its_own (parts : List (List K)) :
+    splitBy (parts.map List.length) parts.flatten = parts := splitBy_flatten parts
+
+/-- the loop as written in `casadi_helpers.for_all_primitives` (regenerated from the source on every run): both the slice handed to a
+symbol and the advance of the offset use the symbol's number of entries -/
+theorem source_set_value_glue_as_expected :
+    Rockit.Generated.glueSizes.filter (fun r => r.1 == "for_all_primitives") =
+      [("for_all_primitives", "stride", "nnz"), ("for_all_primitives", "slice", "nnz")] := by decide
+
+/-- what a stride by the number of ROWS does after a 2×2 matrix: the next symbol reads an entry of the matrix -/
+theorem wrong_stride_breaks_it :
+    splitByStride [(4, 2), (1, 1)] [11, 21, 12, 22, (7 : Nat)] ≠ splitBy [4, 1] [11, 21, 12, 22, 7] := by decide
+
+end concatenations
 
 end Rockit.C09
